@@ -116,6 +116,17 @@ CHECKS: dict[str, dict[str, str]] = {
         "technique": "TLA+ BIP341 specification model-checked with TLC on small trees; recorded outputs/control blocks and altered proofs validated as traces",
         "design_ref": "DESIGN.md section 4 C12",
     },
+    "C16": {
+        "text": ("BIP327 is specified generically in curve and hash; TLC runs a whole session (nonce round, signing round, verification of every partial signature, "
+                 "aggregation, adaptor completion and extraction) on a toy curve of 31 points for EVERY choice of private keys incl. duplicates, every sequence of up "
+                 "to 2 plain/x-only tweaks, several nonces, with and without adaptor, so the parity bookkeeping (gacc, tacc, negated nonces and keys) is checked "
+                 "exhaustively. On secp256k1, sessions recorded from ecc.musig2 are recomputed by TLC (aggregate key, every partial verification, the aggregate, BIP340 "
+                 "validity, adaptor round trip); ECDH/X9.63-KDF and BIE1 keys, BIP374 proofs with altered statements, BIP352 sender outputs (address order, "
+                 "labels, repeats), both scanners and the spend key are recomputed from the TwoParty specification; ECIES round trips over every key spelling and "
+                 "ElligatorSwift exchanges are checked for agreement."),
+        "technique": "TLA+ BIP327 / two-party specifications; toy-curve session model-checked exhaustively with TLC; recorded secp256k1 sessions, proofs and payments validated as traces",
+        "design_ref": "DESIGN.md section 4 C16",
+    },
     "C17": {
         "text": ("TLC model-checks: the merkle tree with a collision-free hash over every list of up to 5-6 leaves with repeats (a branch proves its leaf at its "
                  "index and no other leaf or index, the padded tail is no position, two lists with one root imply a mutation flag); the Golomb-Rice set codec "
